@@ -476,7 +476,14 @@ func (dl *diffLayer) flatten() snapshot {
 	for accountHash, storage := range dl.storageData {
 		// If storage didn't exist (or was deleted) in the parent, overwrite blindly
 		if _, ok := parent.storageData[accountHash]; !ok {
-			parent.storageData[accountHash] = storage
+			// Do not adopt the child's map: later flattens write into the
+			// parent's maps in place, while this child is not marked stale and
+			// may still be read by a StateDB opened at its root.
+			cpy := make(map[common.Hash][]byte, len(storage))
+			for storageHash, data := range storage {
+				cpy[storageHash] = data
+			}
+			parent.storageData[accountHash] = cpy
 			continue
 		}
 		// Storage exists in both parent and child, merge the slots
